@@ -814,7 +814,12 @@ class Run:
                     for p in problems:
                         self.viol(("C02", "C13"), p[0], at, *p[1:])
                     if isinstance(ent[0], Tensor):
-                        _ = (ent[0].taco_indices, ent[0].taco_vals)
+                        try:
+                            _ = (ent[0].taco_indices, ent[0].taco_vals)
+                        except Exception as e:
+                            if has_blocks:
+                                self.viol(("C02",), "kernel_output_not_readable", at, type(e).__name__, str(e)[:200])
+                            del e
                     else:
                         self.probe("read_through_struct_alias")
                     outcome = "read:" + hashlib.blake2b(repr((levels, vals)).encode(), digest_size=4).hexdigest()
